@@ -13,9 +13,11 @@ mod c11;
 mod c12;
 mod c13;
 mod c14;
+mod c15;
 mod c16;
 mod c17;
 mod c18;
+mod c19;
 mod ciphers;
 mod common;
 mod logins;
@@ -37,6 +39,14 @@ fn main() {
     mc::util::install_quiet_panic_hook();
     match args[1].as_str() {
         "bench" => bench::run(),
+        "transcript" => {
+            if args.len() < 4 {
+                usage();
+            }
+            let tier = if args[2] == "thorough" { Tier::Thorough } else { Tier::Quick };
+            let seed: u64 = std::env::var("VERIF_SEED").ok().and_then(|s| s.parse().ok()).unwrap_or(0);
+            c19::write_transcript(tier, seed, &args[3]);
+        }
         "witness-search" => c03_extra::witness_search(0),
         "selftest" => {
             if args.len() < 4 {
@@ -71,8 +81,10 @@ fn main() {
                 "C12" => c12::run(tier, seed),
                 "C13" => c13::run(tier, seed),
                 "C14" => c14::run(tier, seed),
+                "C15" => c15::run(tier, seed),
                 "C16" => c16::run(tier, seed),
                 "C17" => c17::run(tier, seed),
+                "C19" => c19::run(tier, seed),
                 "C18" => c18::run(tier, seed),
                 other => {
                     eprintln!("unknown property {other}");
